@@ -207,6 +207,46 @@ theorem rhs_family (fm : FamMap) (eoc : List String) (expr : String) (trigs : Li
       obtain ⟨rfl, rfl⟩ := hq s b hfq
       exact ha.2.2 hs m hm out hout
 
+/-! ## Nesting of families: the family map built from `[runtime]` inheritance -/
+
+/-- **Members of a (nested) family**: in the family map `WorkflowConfig._load_graph` hands to the
+parser, the members of `F` are exactly the namespaces that inherit from `F` — directly or through
+any number of intermediate families, first or later parent — and from which nothing inherits
+(the tasks).  No bound on the depth or size of the hierarchy. -/
+theorem nested_members (d : Decls) (F : String) (ms : List String)
+    (h : (familyMap d).lookup F = some ms) (m : String) :
+    m ∈ ms ↔ (Inherits d m F ∧ ¬ ∃ x, Inherits d x m) :=
+  familyMap_members d F ms h m
+
+/-- **FAM:<q>-all over nested families**: true exactly when every task below `F` in the hierarchy
+has the member output. -/
+theorem nested_fam_all_sem (d : Decls) (F off : String) (ms : List String) (s : Stem) (opt : Bool)
+    (σ : String → Bool) (hF : (familyMap d).lookup F = some ms)
+    (hx : (Node.isXtrig ⟨F, off, s.famQual true, opt, false⟩) = false) :
+    (expand (familyMap d) (.leaf ⟨F, off, s.famQual true, opt, false⟩)).den σ = true ↔
+      ∀ m, Inherits d m F → (¬ ∃ x, Inherits d x m) → outSpec σ m off s.output = true := by
+  rw [fam_all_sem _ _ _ ms _ _ _ hF hx, List.all_eq_true]
+  constructor
+  · intro h m h1 h2
+    exact h m ((nested_members d F ms hF m).mpr ⟨h1, h2⟩)
+  · intro h m hm
+    obtain ⟨h1, h2⟩ := (nested_members d F ms hF m).mp hm
+    exact h m h1 h2
+
+/-- **FAM:<q>-any over nested families**: true exactly when some task below `F` has the output. -/
+theorem nested_fam_any_sem (d : Decls) (F off : String) (ms : List String) (s : Stem) (opt : Bool)
+    (σ : String → Bool) (hF : (familyMap d).lookup F = some ms)
+    (hx : (Node.isXtrig ⟨F, off, s.famQual false, opt, false⟩) = false) :
+    (expand (familyMap d) (.leaf ⟨F, off, s.famQual false, opt, false⟩)).den σ = true ↔
+      ∃ m, Inherits d m F ∧ (¬ ∃ x, Inherits d x m) ∧ outSpec σ m off s.output = true := by
+  rw [fam_any_sem _ _ _ ms _ _ _ hF hx, List.any_eq_true]
+  constructor
+  · rintro ⟨m, hm, h⟩
+    obtain ⟨h1, h2⟩ := (nested_members d F ms hF m).mp hm
+    exact ⟨m, h1, h2, h⟩
+  · rintro ⟨m, h1, h2, h⟩
+    exact ⟨m, (nested_members d F ms hF m).mpr ⟨h1, h2⟩, h⟩
+
 /-! ## Non-vacuity: the hypotheses of the theorems above are met by concrete, non-trivial values -/
 
 /-- `FAM[-P1]:finish-all` with members m1, m2: true when m1 failed and m2 succeeded at the offset … -/
@@ -249,5 +289,16 @@ example : (procRight [("FAM", ["m1", "m2"])] [] "a:succeeded" ["a:succeeded"] {}
       ⟨"FAM", "", "fail-all", true, false⟩).map
       (fun st' => (st'.opts.lookup ("m2", "failed"), st'.trigs.lookup ("m1", "a:succeeded")))
     = some (some (true, true, false), some (["a:succeeded"], false)) := by decide
+
+/-- a nested hierarchy: SUB below FAM, m1 below SUB, m2 below FAM and OTHER (second parent) -/
+def exDecls : Decls :=
+  [("FAM", []), ("SUB", ["FAM"]), ("OTHER", []), ("m1", ["SUB"]), ("m2", ["OTHER", "FAM"]), ("zz", ["OTHER"])]
+
+example : (familyMap exDecls).lookup "FAM" = some ["m1", "m2"] ∧
+    (familyMap exDecls).lookup "SUB" = some ["m1"] ∧
+    (familyMap exDecls).lookup "OTHER" = some ["m2", "zz"] := by decide
+
+example : Inherits exDecls "m1" "FAM" ∧ ¬ ∃ x, Inherits exDecls x "m1" :=
+  (nested_members exDecls "FAM" ["m1", "m2"] (by decide) "m1").mp (by decide)
 
 end CylcModel.C15
